@@ -134,7 +134,7 @@ def monitor_run(cmd, block):
         if alg != "VDCMA": return [("monitor:%s:constrained-accepted" % alg, "`%s`: constrained objective neither rejected nor handled: %s" % (cmd, block[:2]))]
     prev_val = None
     for l in block:
-        if l == "RUN": continue
+        if l == "RUN" or l.startswith("GRNG"): continue
         if l.startswith("EXC") or l.startswith("ERR"):
             bad.append(("monitor:%s:exception" % alg, "`%s`: %s" % (cmd, l))); break
         d = parse_step(l); st = d["t"]
@@ -228,6 +228,10 @@ def gen_runs(rng, nbase):
         # the same optimizer OBJECT first completes another run (other objective, other seed) and is initialised again:
         # "runs with the same seed are identical" must not depend on the object's history
         cmds.append((mk("1") + " %d %d" % (rng.choice([f for f in (0, 1, 2, 4, 6) if f != fid]), rng.randint(3, 12)), "reinit"))
+        # an optimizer constructed with a CALLER-OWNED generator (same seed) while the global generator holds unrelated
+        # state: must repeat the base run exactly and leave the global generator untouched (two different global states)
+        if alg in ("CMA", "CMSA", "ECMA", "VDCMA"):
+            cmds.append((mk("1") + " 0 0 1", "own")); cmds.append((mk("1") + " 0 0 %d" % rng.randint(2, 9), "own"))
     # the announced-constraint objective: documented refusal
     for alg in algs:
         cmds.append(("RUN %s 3 0 0 2 0 1 7 1 3" % alg, "base"))
@@ -636,7 +640,9 @@ def main():
         # a pair (base, same-seed/4f run) written by a determinism / rank-invariance failure
         for i in range(1, len(runs)):
             a, b = runs[i - 1][0].split(), runs[i][0].split()
-            if len(b) == len(a) + 2 and b[:len(a)] == a:
+            if len(b) == len(a) + 3 and b[:len(a)] == a:
+                runs[i] = (runs[i][0], "own")
+            elif len(b) == len(a) + 2 and b[:len(a)] == a:
                 runs[i] = (runs[i][0], "reinit")
             elif a[:9] == b[:9] and a[10:] == b[10:]:
                 runs[i] = (runs[i][0], "same" if a[9] == b[9] else "scaled")
@@ -684,6 +690,12 @@ def main():
         if role == "base": base = (cmd, blk)
         elif role == "same" and not bad and blk != base[1]:
             bad.append(("monitor:%s:seed-determinism" % cmd.split()[1], "`%s`: two runs with the same seed differ" % cmd))
+        elif role == "own" and not bad and ([l for l in blk if not l.startswith("GRNG")] != base[1] or "GRNG 1" not in blk):
+            core = [l for l in blk if not l.startswith("GRNG")]
+            k = next((i for i, (x, y) in enumerate(zip(core, base[1])) if x != y), min(len(core), len(base[1])))
+            why = ("the global generator random::globalRng was used (its state changed)" if "GRNG 0" in blk and core == base[1] else
+                   "the run differs from the run with the default generator and the same seed (first difference at output line %d)%s" % (k, "; the global generator was used as well" if "GRNG 0" in blk else ""))
+            bad.append(("monitor:%s:own-generator-determinism" % cmd.split()[1], "`%s`: optimizer constructed with a caller-owned generator: %s" % (cmd, why)))
         elif role == "reinit" and not bad and blk != base[1]:
             k = next((i for i, (x, y) in enumerate(zip(blk, base[1])) if x != y), min(len(blk), len(base[1])))
             bad.append(("monitor:%s:reinit-determinism" % cmd.split()[1], "`%s`: an optimizer object that completed an earlier run and was initialised again does not repeat the run of a fresh object with the same seed (first difference at output line %d)" % (cmd, k)))
